@@ -275,6 +275,23 @@ fn check_size(id: u8, w: u32, h: u32, pixels: &[(u32, u32)], rng: &mut Rng, rep:
                         }
                     }
                 }
+                // clone_from: whatever the destination was (larger, smaller, owned, borrowed), it becomes the source
+                for (label, q) in [("slice", &from_slice), ("vec", &from_vec)] {
+                    if let Some(q) = q {
+                        let bigger = Page::new(PageId(id ^ 0x55), w + 22, h + 9);
+                        let smaller = Page::new(PageId(id ^ 0xAA), 1, 1);
+                        let other_bytes = vec![0xC3u8; refs::padded_len(w + 1, h)];
+                        let borrowed_other = Page::from_bytes(w + 1, h, &other_bytes[..]).expect("padded length");
+                        let mut filled = Page::new(PageId(7), w + 22, h + 9);
+                        filled.set_all_pixels(true);
+                        for (dl, mut dest) in [("a larger owned page", bigger), ("a smaller owned page", smaller), ("a borrowed page", borrowed_other), ("a larger page that has been written to", filled)] {
+                            dest.clone_from(q);
+                            if dest != *q || dest.as_bytes() != &bytes[..] || dest.width() != w || dest.height() != h || hash_of(&dest) != hash_of(q) {
+                                bad.push(format!("clone_from onto {} does not give the source page: {}x{}, {} bytes instead of {} ({})", dl, dest.width(), dest.height(), dest.as_bytes().len(), bytes.len(), label));
+                            }
+                        }
+                    }
+                }
                 // a rejected (out-of-bounds) write leaves the page exactly as it was: same bytes, still equal
                 for (label, q) in [("slice", &from_slice), ("vec", &from_vec)] {
                     if let Some(q) = q {
@@ -395,7 +412,7 @@ pub fn run(ctx: &Ctx) -> Outcome {
     // tall and wide pages, every pixel: rows / columns just beyond 255, 256 and 2040 (8 x 255)
     let n_tall = {
         let before = sizes.len();
-        for d in [(2u32, 257u32), (1, 264), (8, 300), (257, 3), (1021, 8), (2, 2041), (4, 256)] {
+        for d in [(2u32, 257u32), (1, 264), (8, 300), (257, 3), (1021, 8), (2, 2041), (4, 256), (2, 2049), (3, 2056), (1, 4100), (1, 65_537), (2049, 2)] {
             sizes.push((d.0, d.1, false));
         }
         sizes.len() - before
